@@ -10,7 +10,8 @@ EXTENDS RedisKeyspace, Json, IOUtils
 CONSTANTS ModelChecks,     \* FALSE: only the model-independent rules of C17 are judged
           TolerateOps      \* ops whose model conformance is a listed finding (deviation configs only)
 Rec == ndJsonDeserialize(IOEnv.TRACE)
-VARIABLES l, run, pre
+VARIABLES l, run, pre,
+          known   \* ids of the scripts in the script cache (RedisKeyspace!DoScript)
 RangeQ(q) == {q[i] : i \in DOMAIN q}
 
 JVal(t, v) == CASE t = "string" -> v
@@ -83,30 +84,50 @@ Judge(ev) ==
           ELSE IF \A res \in alts : ~ReplyOkVia(ViaOf(ev), res.r, ev.r) THEN Verdict(ev, "reply differs from the Redis model")
           ELSE Verdict(ev, "keyspace after the command differs from the Redis model")
 
-TraceInit == l = 1 /\ run = 0 /\ pre = [k \in {} |-> 0]
+(* script cache commands: the reply and the keyspace are the model's; an EVAL / EVALSHA reply went through Lua *)
+IsHex40(b) == Len(b) = 40 /\ \A i \in DOMAIN b : (b[i] >= 48 /\ b[i] <= 57) \/ (b[i] >= 97 /\ b[i] <= 102)
+JudgeScript(ev) ==
+  LET now == ev.now
+      before == Live(pre, now)
+      after == JState(ev.s)
+      x == DoScript(ev.c, pre, known, now)
+      viaLua == ev.c.op \in {"EVAL", "EVALSHA"} /\ x.r # NOSCRIPT
+  IN IF "panic" \in DOMAIN ev THEN Verdict(ev, "panic in the executor")
+     ELSE IF ev.r.t = "error" /\ ~StateEq(before, after) THEN Verdict(ev, "a command that replied with an error changed the keyspace")
+     ELSE IF ~ModelChecks THEN TRUE
+     ELSE IF x.r.t = "sha" /\ ~(ev.r.t = "bulk" /\ IsHex40(ev.r.b)) THEN Verdict(ev, "SCRIPT LOAD did not answer with a digest")
+     ELSE IF x.r.t # "sha" /\ ~ReplyOkVia(IF viaLua THEN "call" ELSE "direct", x.r, ev.r)
+          THEN Verdict(ev, "reply of a script-cache command differs from the model (a script is cached by SCRIPT LOAD and EVAL until SCRIPT FLUSH, on every shard)")
+     ELSE IF ~StateEq(Live(x.s, now), after) THEN Verdict(ev, "keyspace after a script differs from the Redis model")
+     ELSE TRUE
+
+TraceInit == l = 1 /\ run = 0 /\ pre = [k \in {} |-> 0] /\ known = {}
 TraceNext ==
   \/ /\ l <= Len(Rec)
      /\ LET ev == Rec[l] IN
-          IF ev.a = "reset" THEN run' = ev.run /\ pre' = [k \in {} |-> 0]
+          IF ev.a = "reset" THEN run' = ev.run /\ pre' = [k \in {} |-> 0] /\ known' = {}
           ELSE IF ev.a = "nodecmd" THEN  \* node level (WAL on a misbehaving disk): an error reply and a changed value do not go together
-               /\ run' = run /\ pre' = pre
+               /\ run' = run /\ pre' = pre /\ known' = known
                /\ (ev.err /\ ev.before # ev.after =>
                      PrintT(<<"VERDICT", ToJson([run |-> run, l |-> l, v |-> "bad", op |-> "NODE",
                                                  what |-> "a command that the node answered with an error changed what the node serves"])>>))
           ELSE IF ev.a = "mass" THEN     \* n keys with the same deadline, the clock jumps, one persistent key stays
-               /\ run' = run /\ pre' = pre
+               /\ run' = run /\ pre' = pre /\ known' = known
                /\ LET due == ev.jump >= ev.ttl
                       want == IF due THEN 1 ELSE ev.n + 1 IN
                   (("panic" \in DOMAIN ev \/ ev.dbsize # want \/ (due /\ ev.alive # 0) \/ ev.persistent # 0 \/ ev.later # 1 \/ ev.held > want) =>
                      PrintT(<<"VERDICT", ToJson([run |-> run, l |-> l, v |-> "bad", op |-> "SET PX",
                                                  what |-> "after many deadlines passed at once, keys are still visible, have lost their deadline, or are still held"])>>))
           ELSE IF ev.a = "scanall" THEN
-               /\ run' = run /\ pre' = pre
+               /\ run' = run /\ pre' = pre /\ known' = known
                /\ (RangeQ(ev.returned) # RangeQ(ev.keys) =>
                      PrintT(<<"VERDICT", ToJson([run |-> run, l |-> l, v |-> "bad", op |-> "SCAN",
                                                  what |-> "a full SCAN iteration did not return exactly the keys of the keyspace"])>>))
-          ELSE Judge(ev) /\ run' = run /\ pre' = JState(ev.s)
+          ELSE IF ev.c.op \in ScriptOps THEN
+               /\ JudgeScript(ev) /\ run' = run /\ pre' = JState(ev.s)
+               /\ known' = DoScript(ev.c, pre, known, ev.now).kn
+          ELSE Judge(ev) /\ run' = run /\ pre' = JState(ev.s) /\ known' = known
      /\ l' = l + 1
-  \/ l = Len(Rec) + 1 /\ PrintT(<<"VALIDATED", Len(Rec)>>) /\ l' = l + 1 /\ UNCHANGED <<run, pre>>
-TraceSpec == TraceInit /\ [][TraceNext]_<<l, run, pre>>
+  \/ l = Len(Rec) + 1 /\ PrintT(<<"VALIDATED", Len(Rec)>>) /\ l' = l + 1 /\ UNCHANGED <<run, pre, known>>
+TraceSpec == TraceInit /\ [][TraceNext]_<<l, run, pre, known>>
 =============================================================================
